@@ -41,15 +41,33 @@ class FrameAudit(Lemma):
         for cls in [n for n in mod.tree.body if isinstance(n, ast.ClassDef)]:
             for fn in [n for n in cls.body if isinstance(n, (ast.FunctionDef, ast.AsyncFunctionDef))]:
                 selfname = (fn.args.posonlyargs + fn.args.args)[0].arg if (fn.args.posonlyargs + fn.args.args) else None
+                # locals that only ever name an object created in this very call (a fresh display / comprehension / dict() /
+                # list() ...): filling them is construction, not mutation of something another task can see
+                fresh_kinds = (ast.Dict, ast.List, ast.Set, ast.DictComp, ast.ListComp, ast.SetComp)
+                assigned = {}
+                for n in ast.walk(fn):
+                    tgt, val = None, None
+                    if isinstance(n, ast.Assign) and len(n.targets) == 1 and isinstance(n.targets[0], ast.Name):
+                        tgt, val = n.targets[0].id, n.value
+                    elif isinstance(n, ast.AnnAssign) and isinstance(n.target, ast.Name) and n.value is not None:
+                        tgt, val = n.target.id, n.value
+                    if tgt is not None:
+                        is_fresh = isinstance(val, fresh_kinds) or (isinstance(val, ast.Call) and isinstance(val.func, ast.Name)
+                                                                    and val.func.id in ("dict", "list", "set") )
+                        assigned.setdefault(tgt, []).append(is_fresh)
+                params = {a.arg for a in fn.args.posonlyargs + fn.args.args + fn.args.kwonlyargs}
+                fresh_locals = {k for k, v in assigned.items() if all(v) and k not in params}
+                is_fresh_local = lambda e: isinstance(e, ast.Name) and e.id in fresh_locals      # noqa: E731
                 for n in ast.walk(fn):
                     if isinstance(n, ast.Attribute) and isinstance(n.ctx, (ast.Store, ast.Del)):
                         own = isinstance(n.value, ast.Name) and n.value.id == selfname
                         if not (own and (cls.name, fn.name, n.attr) in ALLOWED):
                             bad.append(f"{cls.name}.{fn.name}: store to .{n.attr}")
                     elif isinstance(n, ast.Subscript) and isinstance(n.ctx, (ast.Store, ast.Del)):
-                        bad.append(f"{cls.name}.{fn.name}: item store/delete on {ast.unparse(n.value)}")
+                        if not is_fresh_local(n.value):
+                            bad.append(f"{cls.name}.{fn.name}: item store/delete on {ast.unparse(n.value)}")
                     elif isinstance(n, ast.Call) and isinstance(n.func, ast.Attribute):
-                        if n.func.attr in MUTATORS:
+                        if n.func.attr in MUTATORS and not is_fresh_local(n.func.value):
                             bad.append(f"{cls.name}.{fn.name}: mutating call .{n.func.attr}()")
                         if n.func.attr in ("set", "reset"):
                             cv_ops.append((cls.name, fn.name, n.func.attr))
